@@ -73,7 +73,7 @@ def run_case(case, ctx):
     rho = rho / np.real(np.trace(rho))
     p = np.real(np.diag(rho))
     units = nh + (na if kind == "mixed" else 0)
-    tau = TAU * 4 * units + 1e-11
+    tau = 4 * gen.tau_sp(nv, am, ph) + 1e-11
     tags = {"state": kind}
     wit = {"am": gen.small_params(am), "ph": gen.small_params(ph)}
     pairs = [(i, j) for i in range(N) for j in range(N)]
